@@ -35,6 +35,7 @@ vector<string> ApplicationTools::matchingParameters(const string& pattern, const
     size_t pos1, pos2;
     string parn = it.first;
     bool flag(true);
+    bool star(false); // a '*' was met: the last token may match further right
     string g = stj.nextToken();
     pos1 = parn.find(g);
     if (pos1 != 0)
@@ -42,6 +43,7 @@ vector<string> ApplicationTools::matchingParameters(const string& pattern, const
     pos1 += g.length();
     while (flag && stj.hasMoreToken())
     {
+      star = true;
       g = stj.nextToken();
       pos2 = parn.find(g, pos1);
       if (pos2 == string::npos)
@@ -52,7 +54,7 @@ vector<string> ApplicationTools::matchingParameters(const string& pattern, const
       pos1 = pos2 + g.length();
     }
     if (flag &&
-        ((g.length() == 0) || (pos1 == parn.length()) || (parn.rfind(g) == parn.length() - g.length())))
+        ((pos1 == parn.length()) || (star && ((g.length() == 0) || (parn.rfind(g) == parn.length() - g.length())))))
       retv.push_back(parn);
   }
 
@@ -69,6 +71,7 @@ vector<string> ApplicationTools::matchingParameters(const string& pattern, vecto
     size_t pos1, pos2;
     string parn = params.at(i);
     bool flag(true);
+    bool star(false); // a '*' was met: the last token may match further right
     string g = stj.nextToken();
     pos1 = parn.find(g);
     if (pos1 != 0)
@@ -76,6 +79,7 @@ vector<string> ApplicationTools::matchingParameters(const string& pattern, vecto
     pos1 += g.length();
     while (flag && stj.hasMoreToken())
     {
+      star = true;
       g = stj.nextToken();
       pos2 = parn.find(g, pos1);
       if (pos2 == string::npos)
@@ -86,7 +90,7 @@ vector<string> ApplicationTools::matchingParameters(const string& pattern, vecto
       pos1 = pos2 + g.length();
     }
     if (flag &&
-        ((g.length() == 0) || (pos1 == parn.length()) || (parn.rfind(g) == parn.length() - g.length())))
+        ((pos1 == parn.length()) || (star && ((g.length() == 0) || (parn.rfind(g) == parn.length() - g.length())))))
       retv.push_back(parn);
   }
 
